@@ -1,6 +1,7 @@
 BC = "crates/astria-conductor/src/block_cache.rs"
 EX = "crates/astria-conductor/src/executor/mod.rs"
 ST = "crates/astria-conductor/src/state.rs"
+XV = "crates/astria-core/src/execution/v2/mod.rs"
 
 PRELUDE = r'''
 pub const MCAP: usize = 3;   // capacity of the map stand-in: the cache holds at most 3 blocks in this unit's harnesses
@@ -60,8 +61,12 @@ pub trait GetSequencerHeight { fn get_height(&self) -> Height; }
 #[derive(Clone, Copy, Debug, PartialEq, Eq)] pub enum CommitLevel { SoftOnly, FirmOnly, SoftAndFirm }
 pub struct StateSender { pub firm: u64, pub soft: u64 }
 impl StateSender { pub fn firm_number(&self) -> u64 { self.firm } pub fn soft_number(&self) -> u64 { self.soft } }
-pub struct ExecutedBlockMetadata { pub number: u64 }
+#[derive(Clone, Copy, Debug, PartialEq, Eq)] pub struct ExecutedBlockMetadata { pub number: u64 }
 impl ExecutedBlockMetadata { pub fn number(&self) -> u64 { self.number } }
+
+// ---- astria-core execution::v2 stand-ins for CommitmentStateBuilder::build -------------------------------------------------------------------
+#[derive(Clone, Copy, Debug, PartialEq, Eq)] pub struct CommitmentState { pub soft_executed_block_metadata: ExecutedBlockMetadata, pub firm_executed_block_metadata: ExecutedBlockMetadata, pub lowest_celestia_search_height: u64 }
+pub struct NoFirm; pub struct NoSoft; pub struct NoBaseCelestiaHeight;
 '''
 
 HARNESS = r'''
@@ -171,6 +176,18 @@ HARNESS = r'''
             assert!(m as u128 + s0 as u128 == h2.0 as u128 + r0 as u128);
         }
     }
+
+    // ---- the only constructor of a CommitmentState refuses firm > soft and carries the three fields unchanged ----------------------------
+    #[kani::proof]
+    #[kani::unwind(5)]
+    fn commitment_state_never_has_firm_above_soft() {
+        let firm = ExecutedBlockMetadata { number: kani::any() }; let soft = ExecutedBlockMetadata { number: kani::any() }; let low: u64 = kani::any();
+        let b = CommitmentStateBuilder { firm_executed_block_metadata: WithFirm(firm), soft_executed_block_metadata: WithSoft(soft), lowest_celestia_search_height: WithLowestCelestiaSearchHeight(low) };
+        match b.build() {
+            Ok(cs) => { assert!(firm.number <= soft.number); assert!(cs.firm_executed_block_metadata == firm && cs.soft_executed_block_metadata == soft && cs.lowest_celestia_search_height == low); }
+            Err(_) => assert!(firm.number > soft.number),
+        }
+    }
 '''
 
 UNIT = dict(
@@ -192,6 +209,10 @@ UNIT = dict(
         dict(file=EX, path="fn should_execute_firm_block"),
         dict(file=ST, path="fn map_rollup_number_to_sequencer_height"),
         dict(file=ST, path="fn try_map_sequencer_height_to_rollup_height"),
+        dict(file=XV, path="struct FirmExceedsSoft", keep_derives={"Debug"}),
+        dict(file=XV, path="struct WithFirm"), dict(file=XV, path="struct WithSoft"), dict(file=XV, path="struct WithLowestCelestiaSearchHeight"),
+        dict(file=XV, path="struct CommitmentStateBuilder", keep_derives=set()),
+        dict(file=XV, path="impl CommitmentStateBuilder<WithFirm, WithSoft, WithLowestCelestiaSearchHeight>/fn build"),
     ],
     harness=HARNESS,
     harnesses=[
@@ -201,6 +222,7 @@ UNIT = dict(
         dict(name="block_cache_drop_obsolete_contract", obligation="BlockCache::drop_obsolete::ensures#never-lowers-next-height+drops-exactly-older+invariant", bounded="cache holds at most 3 blocks (all contents symbolic)"),
         dict(name="firm_execution_decision", obligation="should_execute_firm_block::ensures#firm-executes-iff-not-yet-soft-executed"),
         dict(name="block_response_contract", obligation="does_block_response_fulfill_contract::ensures#Ok<=>number==current+1"),
+        dict(name="commitment_state_never_has_firm_above_soft", obligation="CommitmentStateBuilder::build::ensures#Ok<=>firm<=soft+fields-carried"),
         dict(name="height_mapping_is_inverse", obligation="state::map_rollup_number_to_sequencer_height+try_map_sequencer_height_to_rollup_height::ensures#exact-and-inverse"),
     ],
     assumptions=["BTreeMap replaced by an ordered-map stand-in with the same semantics for remove/first_key_value/split_off/entry (capacity 3)",
